@@ -1,7 +1,9 @@
 /-
   Proto/AnyObjectFrame.lean — frame facts about the any_object / any_unique model (used by
-  Props/C18.lean): the caller's temporary (pseudo-variable 3) never survives an operation, and
-  destroying the three variables leaves all of them unconstructed.
+  Props/C18.lean): the caller's temporary (pseudo-variable 3) never survives an operation,
+  destroying the three variables leaves all of them unconstructed, moves / swaps / destructions never
+  allocate or copy, and an operation that does not name a variable leaves that variable and the value
+  of the payload it owns untouched.
 -/
 import UnifexModel.Proto.AnyObjectLemmas
 namespace Unifex.Proto.AnyObject
@@ -197,5 +199,176 @@ theorem runPrims_noalloc (cfg : Cfg) (s : St) (ps : List Prim) (h : ∀ p ∈ ps
     rcases he with he | he
     · exact primEff_noalloc cfg s p (h p List.mem_cons_self) e he
     · exact ih _ (fun q hq => h q (List.mem_cons_of_mem _ hq)) he
+
+/-! ### operations on other variables do not disturb a wrapper -/
+
+/-- the wrapper variables a primitive may modify -/
+def Prim.touches (k : Nat) : Prim → Bool
+  | .mkTemp _ _ => k == tmp
+  | .clear i _ => k == i
+  | .emplaceIn j _ _ _ => k == j
+  | .emplaceFromTemp j _ => k == j || k == tmp
+  | .moveInto j i => k == j || k == i
+  | .swap i j => k == i || k == j
+  | .arm => false
+
+@[simp] theorem apply_val (s : St) (e : Eff) : (s.apply e).1.val = (e.evs.foldl St.record s).val := rfl
+
+theorem bad_frame (s : St) : (s.apply s.bad).1.slot = s.slot ∧ (s.apply s.bad).1.val = s.val := by
+  simp [St.apply, St.bad]
+
+/-- a primitive that does not touch variable k leaves it and the value of the payload it owns alone -/
+theorem prim_frame (cfg : Cfg) (s : St) (p : Prim) (k id : Nat) (hinv : Inv s) (hk : k < 4)
+    (href : (s.slot k).ref = some id) (hp : p.touches k = false) :
+    (s.apply (primEff cfg s p)).1.slot k = s.slot k ∧ (s.apply (primEff cfg s p)).1.val id = s.val id := by
+  have hlt : id < s.next := hinv.own_lt k id hk href
+  have hne : id ≠ s.next := by omega
+  cases p with
+  | mkTemp c v =>
+    simp [Prim.touches] at hp
+    simp only [primEff]
+    split <;> simp [St.bad, St.record, upd, hp, hne]
+  | clear i b =>
+    simp [Prim.touches] at hp
+    simp only [primEff]
+    split
+    · cases hs : s.slot i <;> simp [destroyEvs, St.record, upd, hp]
+    · simp [St.bad]
+  | emplaceIn j c v a =>
+    simp [Prim.touches] at hp
+    simp only [primEff]
+    split
+    · cases hin : cfg.inplace c <;> simp [St.record, upd, hp, hne]
+    · simp [St.bad]
+  | emplaceFromTemp j a =>
+    simp [Prim.touches] at hp
+    simp only [primEff]
+    split
+    · rename_i t ht
+      have htk : t ≠ id := by
+        intro h; subst h
+        have := hinv.uniq tmp k t (by simp [tmp]) hk (by simp [ht, Slot.ref]) href
+        exact hp.2 this.symm
+      split
+      · split
+        · cases hin : cfg.inplace (s.cls t) <;> simp [St.record, upd]
+        · cases hin : cfg.inplace (s.cls t) <;> simp [St.record, upd, hp.1, hne, htk, Ne.symm htk]
+      · simp [St.bad]
+    · simp [St.bad]
+  | moveInto j i =>
+    simp [Prim.touches] at hp
+    simp only [primEff]
+    split
+    · rename_i hg
+      simp only [Bool.and_eq_true, decide_eq_true_eq] at hg
+      unfold moveFrom
+      cases hs : s.slot i with
+      | inl id' =>
+        have hik : id' ≠ id := by
+          intro h; subst h
+          have := hinv.uniq i k id' (by omega) hk (by simp [hs, Slot.ref]) href
+          exact hp.2 this.symm
+        by_cases hth : (decide (s.cls id' = Cls.st) && s.armed) = true
+        · simp [hth]
+        · simp [hth, St.record, upd, hp.1, hp.2, hne, hik, Ne.symm hik]
+      | _ => simp [upd, hp.1, hp.2]
+    · simp [St.bad]
+  | swap i j =>
+    simp [Prim.touches] at hp
+    simp only [primEff]
+    split <;> simp [St.bad, upd, hp.1, hp.2]
+  | arm => simp [primEff]
+
+theorem runPrims_frame (cfg : Cfg) (s : St) (ps : List Prim) (k id : Nat) (hinv : Inv s) (hk : k < 4)
+    (href : (s.slot k).ref = some id) (hp : ∀ p ∈ ps, p.touches k = false) :
+    (runPrims cfg s ps).1.slot k = s.slot k ∧ (runPrims cfg s ps).1.val id = s.val id := by
+  induction ps generalizing s with
+  | nil => simp [runPrims]
+  | cons p ps ih =>
+    have h1 := prim_frame cfg s p k id hinv hk href (hp p List.mem_cons_self)
+    have h2 := ih (s.apply (primEff cfg s p)).1 (prim_inv cfg s p hinv) (by rw [h1.1]; exact href)
+      (fun q hq => hp q (List.mem_cons_of_mem _ hq))
+    simp only [runPrims]
+    exact ⟨h2.1.trans h1.1, h2.2.trans h1.2⟩
+
+/-- the wrapper variables an operation names -/
+def Op.mentions (k : Nat) : Op → Bool
+  | .ctor j _ _ _ => k == j
+  | .moveCtor j i => k == j || k == i
+  | .moveAssign i j => k == i || k == j
+  | .assignValue i _ _ => k == i
+  | .swap i j => k == i || k == j
+  | .destroy i => k == i
+  | .invoke _ => false
+  | .invokeThrow _ => false
+  | .arm => false
+
+theorem compile_touches (cfg : Cfg) (s : St) (op : Op) (ps : List Prim) (k : Nat) (hk : k < 3)
+    (hc : compile cfg s op = some ps) (hm : op.mentions k = false) : ∀ p ∈ ps, p.touches k = false := by
+  have hk3 : k ≠ tmp := by simp [tmp]; omega
+  cases op with
+  | ctor j c v m =>
+    simp [Op.mentions] at hm
+    simp only [compile] at hc
+    split at hc
+    · simp only [Option.some.injEq] at hc; subst hc
+      split <;> simp [Prim.touches, hm, hk3]
+    · simp at hc
+  | moveCtor j i =>
+    simp [Op.mentions] at hm
+    simp only [compile] at hc
+    split at hc
+    · simp only [Option.some.injEq] at hc; subst hc; simp [Prim.touches, hm]
+    · simp at hc
+  | moveAssign i j =>
+    simp [Op.mentions] at hm
+    simp only [compile] at hc
+    split at hc
+    · simp only [Option.some.injEq] at hc; subst hc
+      split <;> simp [Prim.touches, hm]
+    · simp at hc
+  | assignValue i c v =>
+    simp [Op.mentions] at hm
+    simp only [compile] at hc
+    split at hc
+    · simp only [Option.some.injEq] at hc; subst hc; simp [Prim.touches, hm, hk3]
+    · simp at hc
+  | swap i j =>
+    simp [Op.mentions] at hm
+    simp only [compile] at hc
+    split at hc
+    · simp only [Option.some.injEq] at hc; subst hc; simp [Prim.touches, hm]
+    · simp at hc
+  | destroy i =>
+    simp [Op.mentions] at hm
+    simp only [compile] at hc
+    split at hc
+    · simp only [Option.some.injEq] at hc; subst hc; simp [Prim.touches, hm]
+    · simp at hc
+  | arm => simp only [compile, Option.some.injEq] at hc; subst hc; simp [Prim.touches]
+  | invoke i => simp [compile] at hc
+  | invokeThrow i => simp [compile] at hc
+
+theorem invokeEff_frame (s : St) (i : Nat) (t : Bool) :
+    (s.apply (invokeEff s i t)).1.slot = s.slot ∧ (s.apply (invokeEff s i t)).1.val = s.val := by
+  unfold invokeEff; split <;> simp [St.bad, St.apply]
+
+theorem step_frame (cfg : Cfg) (s : St) (op : Op) (k id : Nat) (hinv : Inv s) (hk : k < 3)
+    (href : (s.slot k).ref = some id) (hm : op.mentions k = false) :
+    (step cfg s op).1.slot k = s.slot k ∧ (step cfg s op).1.val id = s.val id := by
+  unfold step
+  split
+  · rename_i i
+    split
+    · have := invokeEff_frame s i false; exact ⟨congrFun this.1 k, congrFun this.2 id⟩
+    · have := bad_frame s; exact ⟨congrFun this.1 k, congrFun this.2 id⟩
+  · rename_i i
+    split
+    · have := invokeEff_frame s i true; exact ⟨congrFun this.1 k, congrFun this.2 id⟩
+    · have := bad_frame s; exact ⟨congrFun this.1 k, congrFun this.2 id⟩
+  · split
+    · have := bad_frame s; exact ⟨congrFun this.1 k, congrFun this.2 id⟩
+    · rename_i ps hc
+      exact runPrims_frame cfg s ps k id hinv (by omega) href (compile_touches cfg s _ ps k hk hc hm)
 
 end Unifex.Proto.AnyObject
